@@ -1,6 +1,7 @@
 package engines
 
 import (
+	"regexp"
 	"bytes"
 	"fmt"
 	"io"
@@ -136,6 +137,8 @@ func c08Op(t []string) string {
 		parts := strings.SplitN(root, "|", 2)
 		fs = afero.NewBasePathFs(afero.NewBasePathFs(m, parts[0]), parts[1])
 		croot = filepath.Join(parts[0], filepath.Clean("/"+parts[1]))
+	case "bpre": // a source that is not an Lstater (a RegexpFs that lets everything through)
+		fs = afero.NewBasePathFs(afero.NewRegexpFs(m, regexp.MustCompile(``)), root)
 	case "sub":
 		sub, _ := afero.NewIOFS(m).Sub(root)
 		fs = afero.FromIOFS{FS: sub}
@@ -276,9 +279,9 @@ func c08Op(t []string) string {
 		res = errClass(err)
 	}
 	leak := ""
-	if method == "symlink" || method == "readlink" {
-		// a name that leaves the root is reported as not existing, whichever argument it is and whether or
-		// not the source supports links
+	if kind == "bp" || kind == "nest" || kind == "bpre" {
+		// a name that leaves the root is reported as not existing — every method, whichever argument it is,
+		// whether or not the source supports the operation
 		escOne := func(root, n string) (string, bool) {
 			r := filepath.Clean(root)
 			p := filepath.Clean(filepath.Join(r, n))
@@ -297,7 +300,7 @@ func c08Op(t []string) string {
 			_, e := escOne(root, n)
 			return e
 		}
-		if (esc(name) || method == "symlink" && esc(name2)) && res != "notexist" {
+		if (esc(name) || (method == "symlink" || method == "rename") && esc(name2)) && res != "notexist" {
 			leak += " LEAK:escaping-name-accepted(" + res + ")"
 		}
 	}
@@ -542,10 +545,16 @@ func c08Exhaustive(tier string) []corr.Case {
 	opRoots := []struct{ kind, root string }{
 		{"bp", "/base"}, {"bp", "/base/"}, {"bp", "/base/sub/.."}, {"nest", "/|base"}, {"nest", "/base|sub"},
 		{"nest", "/base|/../basement"}, {"nest", "/base|../other"}, {"nest", "/base/sub|deep/../../../basement"},
-		{"http", "/base"}, {"sub", "/base"},
+		{"http", "/base"}, {"sub", "/base"}, {"bpre", "/base"},
 	}
+	// names that begin with the root's own path and then climb out of it
+	selfPrefixed := []string{"/base/../secret", "/base//../basement/secret", "/base/sub/../../secret", "base/../secret", "/base/../basement", "/base/..", "/base/in.txt", "/base/../base/in.txt"}
 	for _, r := range opRoots {
-		for _, n := range opNames {
+		names := opNames
+		if r.kind != "http" {
+			names = append(append([]string{}, opNames...), selfPrefixed...)
+		}
+		for _, n := range names {
 			if r.kind == "http" {
 				add(fmt.Sprintf("op http %s open %s", corr.HexS(r.root), corr.HexS(n)))
 				continue
